@@ -77,6 +77,20 @@ def curated():
     out.append(('multi-line-class', dict(name=None, extends=None, stmts=[
         ('rule', 'start', None, ('star', ('ref', 'L'))),
         ('class', 'L', None, [('field', 'w', ('re', '[ab]*', False)), ('field', 'nl', ('str', '\n'))])])))
+    # zero-width regexes: match the empty string at some positions and fail at others
+    out.append(('zero-width-regexes', dict(name=None, extends=None, stmts=[
+        ('rule', 'start', None, ('left', ('ref', 'Word'), ('ref', 'End'))),
+        ('rule', 'Word', None, ('re', '[ab]+', False)),
+        ('rule', 'End', None, ('re', '$', False)),
+        ('rule', 'AbsEnd', None, ('re', '\\Z', False)),
+        ('rule', 'NotA', None, ('re', '(?!a)', False)),
+        ('rule', 'AheadA', None, ('re', '(?=a)', False)),
+        ('rule', 'StarEnd', None, ('re', 'a*$', False)),
+        ('rule', 'Tail', None, ('opt', ('ref', 'End'))),
+        ('rule', 'Alt', None, ('alt', [('ref', 'End'), ('ref', 'Word')])),
+        ('rule', 'Guarded', None, ('seq', [('ref', 'NotA'), ('opt', ('ref', 'Word')), ('opt', ('ref', 'AheadA'))])),
+        ('class', 'Line', None, [('field', 'word', ('ref', 'Word')), ('field', 'end', ('opt', ('ref', 'End'))),
+                                 ('field', 'rest', ('re', '[ab]*', False))])])))
     return out
 
 
